@@ -270,6 +270,85 @@ func c10AdversarialJSON(r *core.Rand) ([]byte, string) {
 	}
 }
 
+// c10Probes: small inputs of every kind, at the integer and float boundaries (valid DAG-CBOR or nearly so).
+var c10Probes = [][]byte{
+	{0x00}, {0x17}, {0x18, 0x18}, {0x1b, 0x7f, 0xff, 0xff, 0xff, 0xff, 0xff, 0xff, 0xff}, {0x1b, 0x80, 0, 0, 0, 0, 0, 0, 0}, {0x1b, 0xff, 0xff, 0xff, 0xff, 0xff, 0xff, 0xff, 0xff},
+	{0x20}, {0x3b, 0x7f, 0xff, 0xff, 0xff, 0xff, 0xff, 0xff, 0xff}, {0x3b, 0x80, 0, 0, 0, 0, 0, 0, 0}, {0x3b, 0xff, 0xff, 0xff, 0xff, 0xff, 0xff, 0xff, 0xff},
+	{0xf4}, {0xf5}, {0xf6}, {0xf7}, {0xfb, 0x3f, 0xf8, 0, 0, 0, 0, 0, 0}, {0xfb, 0x7f, 0xf0, 0, 0, 0, 0, 0, 0}, {0xf9, 0x3c, 0x00},
+	{0x40}, {0x41, 0x00}, {0x60}, {0x61, 0x61}, {0x80}, {0x81, 0x00}, {0x81, 0x1b, 0xff, 0xff, 0xff, 0xff, 0xff, 0xff, 0xff, 0xff}, {0xa0}, {0xa1, 0x61, 0x61, 0x00}, {0xa1, 0x61, 0x61, 0x1b, 0xff, 0xff, 0xff, 0xff, 0xff, 0xff, 0xff, 0xff},
+	{0xd8, 0x2a, 0x58, 0x25, 0x00, 0x01, 0x71, 0x12, 0x20, 1, 2, 3, 4, 5, 6, 7, 8, 9, 10, 11, 12, 13, 14, 15, 16, 17, 18, 19, 20, 21, 22, 23, 24, 25, 26, 27, 28, 29, 30, 31, 32},
+}
+
+// c10TypedTargets: the decoders feeding schema-bound assemblers of RANDOM type systems (reflection binding with inferred
+// and caller-supplied Go types, both levels): every probe, and mutated encodings of an inhabitant's representation and
+// type-level form, through dag-cbor and dag-json.  Whatever the type, the answer is a node or an error, never a panic.
+func c10TypedTargets(c *core.Ctx, r *core.Rand, n int) {
+	cfg := core.DefaultSchemaCfg
+	for i := 0; i < n; i++ {
+		sc, err := genSchemaCase(r, cfg)
+		if err != nil {
+			continue
+		}
+		tv := core.GenInhabitant(sc.T, r, cfg, false)
+		var inputs [][]byte
+		inputs = append(inputs, c10Probes...)
+		for _, v := range []core.Val{core.TypeInput(tv)} {
+			inputs = append(inputs, core.RawCBOR(nil, v))
+		}
+		if rv, ok := core.ReprOf(sc.T, tv); ok {
+			enc := core.RawCBOR(nil, rv)
+			inputs = append(inputs, enc)
+			for k := 0; k < 6 && len(enc) > 0; k++ {
+				m := append([]byte{}, enc...)
+				switch r.Intn(4) {
+				case 0:
+					m[r.Intn(len(m))] ^= byte(1 << r.Intn(8))
+				case 1:
+					m = m[:r.Intn(len(m))]
+				case 2:
+					p := c10Probes[r.Intn(len(c10Probes))]
+					at := r.Intn(len(m))
+					m = append(append(append([]byte{}, m[:at]...), p...), m[at:]...)
+				default:
+					m[r.Intn(len(m))] = []byte{0x1b, 0x3b, 0xf6, 0xfb, 0x40, 0x60, 0x80, 0xa0, 0xd8}[r.Intn(9)]
+				}
+				inputs = append(inputs, m)
+			}
+		}
+		for _, lvl := range []string{"type", "repr"} {
+			mk := func() datamodel.NodeAssembler {
+				var nb datamodel.NodeBuilder
+				if lvl == "type" {
+					nb, _ = sc.Eng.NewTypeBuilder(sc.T.Name)
+				} else {
+					nb, _ = sc.Eng.NewReprBuilder(sc.T.Name)
+				}
+				return nb
+			}
+			for _, in := range inputs {
+				o := c10Decode(dagcbor.Decode, mk, in, false)
+				caseID := fmt.Sprintf("c10.typed %s %s %s cbor %s", sc.Eng.Name(), lvl, sc.Ty, hexArg(in))
+				c.Count(caseID, len(in) >= 2)
+				c.Dist("typed-target:" + lvl + ":" + o.class)
+				if o.class == "panic" {
+					c.Fail("C10/panic", core.Replay{Kind: "oracle", Case: caseID, Impl: o.panicV, Expected: "a node or an error", Detail: "dag-cbor decoder feeding a schema-bound assembler"})
+				}
+				// the same item as DAG-JSON where it has a JSON form
+				nb := basicnode.Prototype.Any.NewBuilder()
+				if dagcbor.Decode(nb, bytes.NewReader(in)) == nil {
+					var jb bytes.Buffer
+					if dagjson.Encode(nb.Build(), &jb) == nil {
+						oj := c10Decode(dagjson.Decode, mk, jb.Bytes(), false)
+						if oj.class == "panic" {
+							c.Fail("C10/panic", core.Replay{Kind: "oracle", Case: fmt.Sprintf("c10.typed %s %s %s json %s", sc.Eng.Name(), lvl, sc.Ty, hexArg(jb.Bytes())), Impl: oj.panicV, Expected: "a node or an error", Detail: "dag-json decoder feeding a schema-bound assembler"})
+						}
+					}
+				}
+			}
+		}
+	}
+}
+
 func runC10(c *core.Ctx) error {
 	c.Rule = "dag-cbor / cbor decoders under every combination of RelaxedDecode, AllowLinks, DontParseBeyondEnd, budgets {default,64,1000,100000}, prealloc caps {default,1,16}, depth limits {default,1,8}; dag-json / json decoders under ParseLinks/ParseBytes/DontParseBeyondEnd/MaxDepth; raw; each into generic (any, map, list, string), generated (gendemo) and reflection-bound assemblers; inputs: adversarial (declared lengths far beyond the content, depth bombs at 1023/1024/1025, wide collections, stacked tags, number and string edge cases, reserved-form variants) and mutated valid encodings; selector specs with extreme integers and degenerate recursion compiled and walked; ParsePath on random strings; non-trivial = input of at least 2 bytes; distinct by (decoder, options, target, input)"
 	c.Explanation = "theorems on the decoder models: decode_depth (a decoded value never nests deeper than MaxDepth), decode_budget (the sum of all charges never exceeds the budget; every pre-allocation is charged before it is made and capped), no panic constructor is reachable (decode), walk_no_panic, compile_no_panic; the constants (entry costs, defaults) are re-extracted from source"
@@ -279,6 +358,7 @@ func runC10(c *core.Ctx) error {
 		flags           string
 		budget, pre, md int64
 	}
+	c10TypedTargets(c, c.Rand.Fork(), c.Pick(60, 4000))
 	var lines []string
 	var impl []string
 	n := c.Pick(2500, 150000)
